@@ -23,7 +23,8 @@ pub fn falsified_always(pf: &PatForm, model: &Model, w_space: &Space, link: Link
     let globs: Vec<wax::Glob> = pf
         .texts()
         .iter()
-        .filter_map(|t| crate::exec::guarded(|| wax::Glob::new(t).ok().map(|g| g.into_owned())).ok().flatten())
+        .flat_map(|t| flatten_alternatives(t))
+        .filter_map(|t| crate::exec::guarded(|| wax::Glob::new(&t).ok().map(|g| g.into_owned())).ok().flatten())
         .filter(|g| matches!(g.is_exhaustive(), wax::query::When::Always))
         .collect();
     if globs.is_empty() {
@@ -288,10 +289,13 @@ pub fn expect(layers: &[Layer], u: &UFeed, root_text: &str) -> Result<Expect, Ha
                 let pf = &crate::exec::subst_pattern(pf, root_text);
                 let ms = reference_matches(pf, &rels).map_err(HarnessError)?;
                 // alternatives that claim to be always exhaustive (public query)
+                // (alternatives: the members of `any` and, for a member that is wholly an
+                // alternation, its branches)
                 let always: Vec<wax::Glob> = pf
                     .texts()
                     .iter()
-                    .filter_map(|t| wax::Glob::new(t).ok().map(|g| g.into_owned()))
+                    .flat_map(|t| flatten_alternatives(t))
+                    .filter_map(|t| wax::Glob::new(&t).ok().map(|g| g.into_owned()))
                     .filter(|g| matches!(wax::Program::is_exhaustive(g), wax::query::When::Always))
                     .collect();
                 let mut col = Vec::with_capacity(n);
